@@ -147,3 +147,65 @@ func verifC16_guard() {
 	c.CloseNow()
 	vObserve("guard", len(t.out))
 }
+
+// C16.sched (exploration mode): a writer (streaming two chunks), a pinger and a closer run concurrently while the peer's
+// echo is already waiting; under every interleaving at synchronisation operations within the preemption bound the wire
+// carries nothing after the first Close frame, and every data message on the wire is complete or a prefix of frames.
+func verifC16_sched() {
+	client := vParam("client", 1) == 1
+	vInstallRand()
+	echo := vFrame{fin: true, opcode: 8, masked: !client, payload: []byte{0x03, 0xe8}}
+	if echo.masked {
+		copy(echo.key[:], vBytes("key", 4))
+	}
+	t := vNewTransport(vEncodeFrame(echo))
+	t.endMode = vEndBlock
+	c := vNewConn(t, client, nil, 16, 16)
+	done := make(chan struct{}, 3)
+	vGhostExplore(vParam("preempt", 1))
+	go func() {
+		w, err := c.Writer(vBG, MessageText)
+		if err == nil {
+			w.Write(vBytes("a", 1))
+			w.Write(vBytes("a", 1))
+			w.Close()
+		}
+		done <- struct{}{}
+	}()
+	n := 2
+	if vParam("pinger", 0) == 1 {
+		n = 3
+		go func() {
+			ctx, cancel := context.WithTimeout(vBG, time.Second)
+			c.Ping(ctx)
+			cancel()
+			done <- struct{}{}
+		}()
+	}
+	go func() {
+		c.Close(StatusNormalClosure, "")
+		done <- struct{}{}
+	}()
+	for i := 0; i < n; i++ {
+		<-done
+	}
+	vGhostExploreOff()
+	vReach("C16.sched.finished")
+	frames, ok := vParseWritten(t.out)
+	vAssert(ok, "C16.sched.wellformed")
+	seenClose, after := false, 0
+	for _, f := range frames {
+		if seenClose {
+			after++
+		}
+		if f.opcode == 8 {
+			seenClose = true
+		}
+	}
+	vAssert(after == 0, "C16.sched.nothing-after-close")
+	if seenClose {
+		vReach("C16.sched.close-sent")
+	}
+	c.CloseNow()
+	vObserve("c16sched", len(frames))
+}
